@@ -11,7 +11,7 @@ def _prepare():
     shutil.copy(os.path.join(REPO, "Cargo.lock"), os.path.join(KDIR, "Cargo.lock"))
 
 
-def run(harnesses, timeout_s, jobs=12, mem_kb=48_000_000, harness_timeout_s=300):
+def run(harnesses, timeout_s, jobs=12, mem_kb=48_000_000, harness_timeout_s=900):
     """returns (results: {harness: dict}, raw_log_path, wall_s).
     status: 'ok' (SUCCESSFUL, all covers satisfied), 'failed' (with failed check list),
     'inconclusive' (timeout / OOM / ICE / unsatisfied cover / missing verdict)."""
